@@ -12,6 +12,9 @@ def run(ctx):
     for i in range(reps):
         rep.absorb(ctx.vh_sharded("retention", r1.emitted, shards=8, timeout=1500,
                                   env={"VERIF_SEED": str(ctx.seed + 7919 * i)}))
+    # once more in a time zone whose clocks went forward half a day ago (calendar days and 24-hour spans differ)
+    rep.absorb(ctx.vh_sharded("retention", r1.emitted, extra=["--zone", "dst"], shards=8, timeout=1500,
+                              env={"VERIF_SEED": str(ctx.seed + 104729)}))
     rep.absorb(ctx.vh(["retentionlive"], timeout=600))
     rep.exhaustive = True
     rep.rule = ("every directory population of <= %d entries over 13 name classes (own <name>.<14 digits> x2, "
